@@ -305,7 +305,7 @@ func checkCmd(opts *RunOpts, args []string) int {
 	witnessCache := map[string]bool{}
 	var unsatCore []string
 	cexCache := map[string]*Cex{}
-	var cov_order, cov_rel, cov_neg, cov_q, cov_d, cov_f map[string]any
+	var cov_order, cov_rel, cov_neg, cov_q, cov_d, cov_f, cov_w map[string]any
 
 	for _, res := range run.Results {
 		if res.Trusted {
@@ -545,6 +545,15 @@ func checkCmd(opts *RunOpts, args []string) int {
 		}
 		cov_neg = cv
 	}
+	if run.WRan {
+		_, vl, cv := boundedListVerdict(opts, prop, known, "bounded.waiting.histories", "none.txt", run.WFailing, run.WTotal,
+			"every history of up to 3 single-state Add/Remove mutations over A and the Multi state B, one subscription of every kind (When, WhenNot, WhenTime, WhenTicks, state context) taken at every position, on a fresh machine and after SetSchema",
+			"", "close a channel although its condition never held, keep one open although it did, or cancel / keep a state context against its state's tick", nil)
+		if vl != "" {
+			violations = append(violations, vl)
+		}
+		cov_w = cv
+	}
 	if run.FRan {
 		_, vl, cv := boundedListVerdict(opts, prop, known, "bounded.faults.handler_positions", "none.txt", run.FFailing, run.FTotal,
 			"machine with B active, Set{A} (BExit, AEnter, BEnd, AState), two handler bindings, a panic (error / string) or a stall past HandlerTimeout injected at every (handler, binding)",
@@ -633,6 +642,9 @@ func checkCmd(opts *RunOpts, args []string) int {
 	}
 	if cov_rel != nil {
 		cov["bounded_relations_standin"] = cov_rel
+	}
+	if cov_w != nil {
+		cov["bounded_waiting_standin"] = cov_w
 	}
 	if cov_f != nil {
 		cov["bounded_fault_standin"] = cov_f
